@@ -26,7 +26,7 @@ OPERATOR_DICT = {
     '<=': operator.le,
 }
 
-REGEX_CRITERIA = re.compile(r'(?P<op>[\<\>\=]*)(?P<val>.+)', re.UNICODE | re.DOTALL)  # a text may hold line breaks
+REGEX_CRITERIA = re.compile(r'(?P<op>[\<\>\=]*)(?P<val>.*)', re.UNICODE | re.DOTALL)  # a text may hold line breaks, or be empty
 
 
 def iflatten(iterable):
